@@ -53,6 +53,7 @@ fn full_alphabet() -> Vec<Op> {
         a.push(Op::Poll(s, 1));
     }
     a.push(Op::FStream(0));
+    a.push(Op::StreamIsTerm(0));
     for side in [Side::S, Side::R] {
         for c in [Conv::Clone, Conv::CloneOther, Conv::ToOther] {
             a.push(Op::NewHandle(side, c));
@@ -99,6 +100,26 @@ pub fn suites(check: &str, thorough: bool) -> (Vec<SeqSuite>, String) {
                 class: Class::DP,
                 ctor: A,
                 observe: true,
+            });
+            // the refill of the buffer from a pending sender by an async receive
+            // needs seven calls
+            v.push(SeqSuite {
+                name: "c18-refill",
+                alphabet: vec![
+                    Op::TrySend,
+                    Op::FSend(0),
+                    Op::Poll(0, 0),
+                    Op::FRecv(1),
+                    Op::Poll(1, 0),
+                    Op::FDrop(1),
+                    Op::TryRecv,
+                ],
+                depth: if thorough { 8 } else { 7 },
+                caps: vec![Cap::B(2)],
+                flavours: vec![(A, A)],
+                class: Class::DP,
+                ctor: A,
+                observe: false,
             });
             // the sync side with timed calls and the iterator, deeper
             v.push(SeqSuite {
